@@ -1011,7 +1011,7 @@ pub fn stages(ctx: &Ctx) -> Vec<Stage> {
         let (fam, n, t, pt) = oc[i as usize];
         run_ortho(rep, fam, n, t, pt);
     }));
-    st.push(Stage::new("random", tier.pick(12_000, 600_000), move |i, rep| {
+    st.push(Stage::new("random", tier.pick(60_000, 600_000), move |i, rep| {
         let mut rng = Rng::for_case(seed, "c14-random", i);
         let real = i % 2 == 0;
         let deg = 1 + (i / 2 % 10) as usize;
@@ -1024,7 +1024,7 @@ pub fn stages(ctx: &Ctx) -> Vec<Stage> {
         let u = gen_u(&mut rng);
         run_poly(rep, PolyCase { flavour: "dense", real_type, exact_sparse: false, asc, built_from: roots, tol: 0.0, pin: None }, u);
     }));
-    st.push(Stage::new("sparse", tier.pick(4_800, 240_000), move |i, rep| {
+    st.push(Stage::new("sparse", tier.pick(24_000, 240_000), move |i, rep| {
         let mut rng = Rng::for_case(seed, "c14-sparse", i);
         let real_type = rng.bool();
         let u = gen_u(&mut rng);
